@@ -18,9 +18,9 @@ from ..core.shrink import ShrinkBudget, ddmin_list, shrink_each
 META: Dict[str, Any] = {
     "id": "C16",
     "level": "exploration",
-    "pools": [{"backend": "c"}],
+    "pools": [{"backend": "c"}, {"backend": "c", "optimize": 1}],
     "tiers": {
-        "quick": {"runs": 64000, "chunk": 1000, "wall": 50, "chunk_wall": 240},
+        "quick": {"runs": 76000, "chunk": 1000, "wall": 50, "chunk_wall": 240},
         "thorough": {"runs": 4000000, "chunk": 4000, "wall": 900, "chunk_wall": 600},
     },
     "selftest_runs": 6,
@@ -28,8 +28,9 @@ META: Dict[str, Any] = {
              "every copy made so far): append/insert/extend/remove/pop/clear/copy()/copy.copy/"
              "deepcopy/pickle round trip/construction from an iterable, plus legitimately failing "
              "operations (pop on empty or out of range, remove of an absent item, item without "
-             "short_name, extend from an iterator that raises after k items). The first runs "
-             "enumerate ALL histories of depth 4 (quick) / 5 (thorough) over a 14-operation "
+             "short_name, extend from an iterator that raises after k items) and a read-only "
+             "`inspect` operation (dir, repr, ==, in, index, slicing, reversed, hasattr). The first runs "
+             "enumerate ALL histories of depth 4 (quick) / 5 (thorough) over a 15-operation "
              "alphabet; the rest are random histories of length 5-60. Non-trivial: the history "
              "contains a name collision and a removal or copy. Distinct = distinct event-log digest."),
     "state_measure": "canonical (names tuple, short-name tuple) of every live list after every step",
@@ -52,6 +53,7 @@ ALPHABET: List[Tuple[str, int]] = [
 SYS_OPS: List[List[Any]] = [
     ["append", 0], ["append", 1], ["append", 3], ["append", 10], ["insert", 0, 0], ["insert", 0, 4],
     ["remove", 0], ["remove", -1], ["pop", -1], ["pop", 0], ["clear"], ["copy"], ["deepcopy"], ["pickle", 4],
+    ["inspect"],
 ]
 
 
@@ -72,7 +74,9 @@ class Nameless:
 
 
 def pool_of(rs: int, index: int) -> int:
-    return 0
+    # the enumerated depth-4 histories run in the default environment, the rest alternates
+    # with the "python -O" environment
+    return 0 if index < len(SYS_OPS) ** 4 else index % 2
 
 
 NIL = None
@@ -112,7 +116,8 @@ def gen(rs: int, index: int, tier: str) -> Dict[str, Any]:
         alpha = sorted(set(alpha + [0, 1]))
     w = {k: r.choice([0, 1, 1, 2, 4]) for k in
          ["append", "insert", "extend", "remove", "pop", "clear", "copy", "copycopy", "deepcopy", "pickle",
-          "construct", "remove_absent", "pop_bad", "append_nameless", "extend_raise", "insert_nameless"]}
+          "construct", "remove_absent", "pop_bad", "append_nameless", "extend_raise", "insert_nameless",
+          "inspect"]}
     w["append"] = max(w["append"], 2)
     kinds = [k for k in w if w[k] > 0]
     ops: List[List[Any]] = []
@@ -148,6 +153,8 @@ def gen(rs: int, index: int, tier: str) -> Dict[str, Any]:
             ops.append([li, "insert_nameless", r.choice([0, 1, -1])])
         elif k == "extend_raise":
             ops.append([li, "extend_raise", [r.choice(alpha) for _ in range(r.randint(0, 3))]])
+        elif k == "inspect":
+            ops.append([li, "inspect"])
     return {"ops": ops, "systematic": False}
 
 
@@ -227,6 +234,9 @@ def check_list(nil, model: List[Any], identity: bool, li: int) -> None:
             raise Violation("unregistered-name-resolves", {"list": li, "name": probe, "via": "getitem"})
         except KeyError:
             pass
+        if not hasattr(cls, probe) and not probe.startswith("_"):
+            if getattr(nil, probe, _SENTINEL) is not _SENTINEL:
+                raise Violation("unregistered-name-resolves", {"list": li, "name": probe, "via": "getattr"})
     for meth in ("append", "insert", "extend", "remove", "pop", "clear", "copy", "keys", "values", "items", "get"):
         m = getattr(nil, meth)
         if not callable(m) or getattr(m, "__self__", None) is not nil:
@@ -392,6 +402,24 @@ def execute(trace: Dict[str, Any]) -> Dict[str, Any]:
                     new = NIL(src)
                     lists.append(new)
                     models.append(list(its))
+                elif kind == "inspect":
+                    # read-only use by a client (debugger, REPL completion, logging): nothing may change
+                    names = list(nil.keys())
+                    d = dir(nil)
+                    missing = [k for k in names if k not in d]
+                    if missing:
+                        raise Violation("dir-misses-registered-name", {"list": li, "names": missing[:4]})
+                    if any(not isinstance(x, str) for x in d):
+                        raise Violation("dir-yields-non-string", {"list": li})
+                    repr(nil), str(nil), bool(nil), list(reversed(nil)), nil[:], nil[1:], len(nil)
+                    nil == list(model), nil != list(model), nil == nil  # evaluated, not judged
+                    for x in model[:3]:
+                        if x not in nil or nil[nil.index(x)] != x:
+                            raise Violation("membership", {"list": li})
+                    hasattr(nil, "zz_absent"), hasattr(nil, "a"), list(nil.values()), list(nil.items())
+                    if model:
+                        if nil[0] is not model[0] or nil[-1] is not model[-1]:
+                            raise Violation("index-lookup", {"list": li})
                 elif kind in ("append_nameless", "insert_nameless"):
                     faults["item_without_short_name"] = faults.get("item_without_short_name", 0) + 1
                     try:
